@@ -117,6 +117,9 @@ type bias struct {
 
 func p(x float64) bool { return rng.Float64() < x }
 
+// forceMatchdeep: the next op-list that ends in an exotic behaviour ends in matchdeep
+var forceMatchdeep bool
+
 func genOps(b bias, guard bool) []mach.Op {
 	n := rng.Intn(4)
 	ops := []mach.Op{}
@@ -149,8 +152,9 @@ func genOps(b bias, guard bool) []mach.Op {
 	case r < b.fail*0.8:
 		ops = append(ops, mach.Op{Name: "emitbad"})
 	case r < b.fail*0.8+b.exotic:
-		if p(0.03) {
-			ops = append(ops, mach.Op{Name: "matchdeep"}) // (slow: more than a second each)
+		if forceMatchdeep {
+			forceMatchdeep = false
+			ops = append(ops, mach.Op{Name: "matchdeep"}) // (slow: more than a second each, so a fixed share of the cases: see main)
 		} else {
 			ops = append(ops, mach.Op{Name: pickS([]string{"retgetter", "retcyclic", "throwobj", "retcyclicobj", "retnan"})})
 		}
@@ -926,6 +930,9 @@ func main() {
 				b, ok := biases[mode]
 				if !ok {
 					check(fmt.Errorf("unknown mode %s", mode))
+				}
+				if mode == "exotic" && id%150 == 1 {
+					forceMatchdeep = true
 				}
 				out.write(genStep(id, mode, b))
 			}
